@@ -120,6 +120,17 @@ def small_trees(structured, rng, limit):
         # distinct names, one in a sub-directory
         fs = [(("sub/" if i == 2 else "") + "f%d.rs" % i, b) for i, (_, b) in enumerate(fs)]
         out.append(fs)
+    # always included: a file that cannot be read as text at the first, a middle and the last place of a
+    # five-file tree whose other files need references (it is reported and skipped; the others are processed)
+    names = ["a0.rs", "b1.rs", "m/c2.rs", "m/d3.rs", "z4.rs"]
+    for bad in (0, 2, 4):
+        fs = []
+        for i, nme in enumerate(names):
+            if i == bad:
+                fs.append((nme, b"// caf\xe9\nfn f() { info!(\"latin-1\"); }\n"))
+            else:
+                fs.append((nme, wrap_fn([sts[0], sts[min(i + 1, len(sts) - 1)]], name="g%d" % i).encode()))
+        out.append(fs)
     return out
 
 
